@@ -34,16 +34,17 @@ from ..tlc import expect_clean, run_tlc
 
 META = {
     "level": "model_checking",
-    "level_text": "TLC checks on every history of <= 3-4 (quick) / 4-5 (thorough) runs and environment "
-                  "changes (delete, truncate, rewrite, recreate, touch, directory member added or removed) "
-                  "over 2 paths + 1 directory, for a result holding one value of any of the nine file "
-                  "value classes or any ordered pair of them, that the stored result is replayed iff "
-                  "every external value in it is still valid, that otherwise the task re-executes exactly "
-                  "once and run() does not raise, and that the result then carries the current hashes -- "
-                  "strictly for the repaired model, and for the as-built model except through the named "
-                  "ContentFile deviation.  Every run/change/run history of every class, simulated longer "
-                  "histories (bare, list and dict results) and seeded random ones are executed through a "
-                  "real Scheduler and compared with the model, in both directions.",
+    "level_text": "TLC checks on every history of <= 4 (two-value results) / 6 (one-value results) runs and "
+                  "environment changes (thorough; quick: 3 / 4) -- delete, truncate, rewrite, recreate, "
+                  "touch, directory member added or removed -- over 2 paths + 1 directory, for a result "
+                  "holding one value of any of the nine file value classes or any ordered pair of them, "
+                  "that the stored result is replayed iff every external value in it is still valid, that "
+                  "otherwise the task re-executes exactly once and run() does not raise, and that the "
+                  "result then carries the current hashes -- strictly for the repaired model, and for the "
+                  "as-built model except through the named ContentFile deviation.  Every run/change/run "
+                  "history of every class, simulated longer histories (bare, list and dict results) and "
+                  "seeded random ones are executed through a real Scheduler and compared with the model, "
+                  "in both directions.",
     "level_note": "Handles (the other external value of the statement) are covered by C25, not here; local "
                   "file system; default thread executor, one task, check_valid='full'; the list and the "
                   "dict shape are the same model behaviour (the shape is exercised by the replay); the "
@@ -72,7 +73,7 @@ def model_check(ctx: Ctx) -> None:
         plan = [("as-built", ("bare", "list"), [2, 3], 3), ("as-built", ("bare",), [1, 2, 3], 4),
                 ("repaired", ("bare",), [1, 2, 3], 4)]
     else:
-        plan = [("as-built", ("bare", "list"), [1, 2, 3], 4), ("as-built", ("bare",), [1, 2, 3], 5),
+        plan = [("as-built", ("bare", "list"), [1, 2, 3], 4), ("as-built", ("bare",), [1, 2, 3], 6),
                 ("repaired", ("bare", "list"), [1, 2, 3], 4)]
     runs = []
     timing: list = []
@@ -82,7 +83,8 @@ def model_check(ctx: Ctx) -> None:
         cfg = fv.cfg_text("SpecRuns", **common, bytes_=bts, max_ops=depth, shapes=shapes, dev_cm=ab, dev_dc=ab,
                           invariants=AS_BUILT if ab else REPAIRED, properties=["ExecCounts"])
         what = f"{kind} shapes={list(shapes)} bytes={bts} steps<={depth}"
-        res = expect_clean(run_tlc("seq/FileValues.tla", cfg, ctx.scratch, workers=8, timeout=2400, heap="8g"),
+        res = expect_clean(run_tlc("seq/FileValues.tla", cfg, ctx.scratch, workers=ctx.pick(4, 12),
+                                   timeout=2400, heap=ctx.pick("3g", "8g")),
                            f"FileValues.tla runs {what}")
         ctx.add_tlc(res)
         if ab:
